@@ -5,6 +5,8 @@
 // all_compatible, lemma_fcap_push, lemma_un_old, lemma_un_new_le_old, lemma_usage_exact_step).
 // ASSUMPTIONS in this file (listed in the header of slices/add_path.vs): A-display (`{}` of a Path), the uninterpreted
 // result of Schedule::can_depot_spawn_vehicle.  Everything else is an open spec function or a proved lemma.
+// LAST BLOCK: the CLOSURE of the invariant bundle under add_path_to_vehicle_tour (ap_effects, ap_closed, lemma_apcl_closed; names
+// with the prefix `apcl_` are copies / generalisations of lemmas of env/sched_ctor_shim.vs).
 // Copied text (the files that define it cannot be included next to env/spawn_vehicle_shim.vs, or are slices):
 //   * `ins_pos`, `lemma_ins_unique`: env/override_reassign_shim.vs (that file re-declares the vocabulary of
 //     env/sched_guard_shim.vs);
@@ -332,14 +334,23 @@ impl Schedule {
         let s = self.ap_s(v, p);
         let e = self.ap_e(v, p);
         let d = self.ap_displaced(v, p);
+        // (the first five clauses, which do not speak about the returned path, under a name of their own: ap_tour_after)
+        &&& self.ap_tour_after(v, p, s1)
+        &&& d == t0.nodes@.subrange(s, e)
+        &&& all_depots(&self.network, d) ==> removed is None
+        &&& !all_depots(&self.network, d) ==> removed is Some && removed.unwrap().node_sequence@ == d
+    }
+    /// the part of ap_tours_after about the tours: the cut positions, the vehicle's new tour (prefix + whole path + suffix,
+    /// a valid real tour with exact caches), every other key of `tours` keeps its tour
+    pub open spec fn ap_tour_after(&self, v: VehicleIdx, p: Seq<NodeIdx>, s1: &Schedule) -> bool {
+        let t0 = self.tours@[v];
+        let s = self.ap_s(v, p);
+        let e = self.ap_e(v, p);
         &&& ins_positions(&t0, p, s, e) && 0 <= s <= e <= t0.len()
         &&& s1.tours@.contains_key(v) && s1.tours@ == self.tours@.insert(v, s1.tours@[v])
         &&& s1.tours@[v].nodes@ == self.ap_gained(v, p)
         &&& self.ap_gained(v, p) == t0.nodes@.subrange(0, s) + p + t0.nodes@.subrange(e, t0.len())
         &&& tour_of_net(&self.network, &s1.tours@[v]) && s1.tours@[v].caches_ok()
-        &&& d == t0.nodes@.subrange(s, e)
-        &&& all_depots(&self.network, d) ==> removed is None
-        &&& !all_depots(&self.network, d) ==> removed is Some && removed.unwrap().node_sequence@ == d
     }
     /// C13: "… and nothing else": vehicles, dummy tours, the listings, the id counter and the network are untouched
     pub open spec fn ap_rest_untouched(&self, s1: &Schedule) -> bool {
@@ -832,4 +843,783 @@ pub proof fn lemma_ap_new_tour(s: &Schedule, v: VehicleIdx, p: Seq<NodeIdx>, nt:
     lemma_cost_bounds(&nt.network, nt.nodes@);
     assert(tour_of_net(&s.network, &nt));
     assert(-counter_bound() <= tour_counter(&nt) <= counter_bound());
+}
+
+// =====================================================================================================
+// CLOSURE (induction step of C10 "after any sequence of schedule modifications …" / C09 / C11 "… for every reachable
+// schedule"): the schedule add_path_to_vehicle_tour returns satisfies the invariant bundle `ap_ok` (and `ap_vehicle_ok` for
+// the same vehicle) AGAIN.  Everything here is derived from the EFFECT clauses of the contract (collected in `ap_effects`)
+// and the invariants of the old schedule: open spec functions and proved lemmas, no assumption.
+//   invariant conjunct (ap_ok)               | status for the result r
+//   network.wf()                             | proved (network untouched)
+//   sv_ids_ok()                              | proved (vehicles, dummy tours, listings, counter untouched; `tours` keeps its key set)
+//   sv_formations_ok(): every activity has a formation; trips' types are types of the network; the cached pair covers
+//                       any duplicate-free list                  | proved (ap_formations_exact)
+//                       formation length <= 2^17; u32 capacity / seat sums fit with one more vehicle of any type
+//                                                                | MAGNITUDES, not preserved by a formation that GROWS: proved
+//                         for every other formation (untouched / shrunk), for the grown ones under the hypothesis
+//                         `ap_grown_small` on the result (= the two clauses for the non-depot nodes of the path)
+//   ap_unserved_covers()                     | proved (lemma_apcl_covers)
+//   ap_unserved_room()                       | NOT INDUCTIVE as written (see lemma_apcl_closed): hypothesis on the result
+//   transitions_ok()                         | proved, including the magnitude len_sum < 2^17 (the cycles of every type hold
+//                                              the same vehicles as before: lemma_apcl_transitions)
+//   usage_exact(..)                          | proved (was a clause of the contract already)
+//   costs <= 2^61                            | MAGNITUDE, costs can grow: hypothesis `r.costs <= sched_cost_bound()`
+//   ap_vehicle_ok(v): real vehicle, type known, network's record of the type, tour of the network with exact caches,
+//                     tour's costs <= schedule's costs, listed in the formation of every activity of its NEW tour | proved
+//                     A-len (tour_len_ok of the new tour)        | MAGNITUDE: hypothesis on the result
+// The lemmas on sums over node lists / on the size of a rotation-cycle table are the text of env/sched_ctor_shim.vs
+// (lemma_nsum_remove, lemma_nsum_drop_last, cyc_elems, lemma_cyc_elems_member, lemma_cyc_elems_len, lemma_total_len_is_lookup)
+// under the prefix `apcl_` (that file cannot be included here; env/spawn_vehicle_shim.vs holds copies under `spcl_`).
+// =====================================================================================================
+impl Schedule {
+    /// the EFFECT clauses of the contract of add_path_to_vehicle_tour that the closure is derived from (each is a
+    /// postcondition of its own in slices/add_path.vs; nothing new is claimed here)
+    pub open spec fn ap_effects(&self, v: VehicleIdx, p: Seq<NodeIdx>, s1: &Schedule) -> bool {
+        &&& self.ap_tour_after(v, p, s1)
+        &&& self.ap_rest_untouched(s1)
+        &&& self.ap_joins(v, p, s1.train_formations@)
+        &&& self.ap_leaves(v, p, s1.train_formations@)
+        &&& self.ap_elsewhere(v, p, s1.train_formations@)
+        &&& s1.costs == self.costs + s1.tours@[v].costs - self.tours@[v].costs
+        &&& usage_exact(s1.depot_usage@, &self.network, s1.vehicles@, s1.tours@)
+        &&& self.ap_unserved_after(v, p, s1.unserved_passengers)
+        &&& self.transitions_follow(self.type_of(v), s1)
+    }
+    /// the clauses of sv_formations_ok that are no magnitudes (clauses 1, 3, 5; same text): every activity has a
+    /// formation, the trips' types are types of the network, the cached pair covers any duplicate-free list
+    pub open spec fn ap_formations_exact(&self) -> bool {
+        let tf = self.train_formations@;
+        &&& forall|n: NodeIdx| self.network.has(n) && self.network.sp_node(n).sp_is_activity() ==> #[trigger] tf.contains_key(n)
+        &&& forall|n: NodeIdx| self.network.has(n) && #[trigger] self.network.sp_node(n) is Service ==> self.network.is_trip(n)
+        &&& forall|s: Seq<NodeIdx>, c: int| #![trigger self.un_old(s, s.len() as int, c)] s.no_duplicates() && all_in_net(&self.network, s) && (c == 0 || c == 1)
+                ==> self.un_old(s, s.len() as int, c) <= self.unserved_c(c)
+    }
+    /// the MAGNITUDE clauses of sv_formations_ok (clauses 2, 4; same text)
+    pub open spec fn ap_formations_small(&self) -> bool {
+        let tf = self.train_formations@;
+        &&& forall|n: NodeIdx| #[trigger] tf.contains_key(n) ==> tf[n].formation@.len() <= max_vehicles()
+        &&& forall|n: NodeIdx, vt: VehicleTypeIdx| #![trigger tf[n], self.vtypes()[vt]] tf.contains_key(n) && self.vtypes().contains_key(vt)
+                ==> fcap(tf[n].formation@) + self.vtypes()[vt].capacity <= u32::MAX && fseats(tf[n].formation@) + self.vtypes()[vt].seats <= u32::MAX
+    }
+    /// HYPOTHESIS ON THE RESULT s1 (magnitudes; the weakest under which ap_formations_small holds again): the two magnitude
+    /// clauses for the formations that GREW, i.e. those of the non-depot nodes of the path (every other formation is
+    /// untouched or lost the vehicle)
+    pub open spec fn ap_grown_small(&self, p: Seq<NodeIdx>, s1: &Schedule) -> bool {
+        let tf = s1.train_formations@;
+        &&& forall|n: NodeIdx| moved_nd(&self.network, p, n) ==> (#[trigger] tf[n]).formation@.len() <= max_vehicles()
+        &&& forall|n: NodeIdx, vt: VehicleTypeIdx| #![trigger tf[n], self.vtypes()[vt]] moved_nd(&self.network, p, n) && self.vtypes().contains_key(vt)
+                ==> fcap(tf[n].formation@) + self.vtypes()[vt].capacity <= u32::MAX && fseats(tf[n].formation@) + self.vtypes()[vt].seats <= u32::MAX
+    }
+    /// what lemma_apcl_closed proves of the result s1
+    pub open spec fn ap_closed(&self, v: VehicleIdx, p: Seq<NodeIdx>, s1: &Schedule) -> bool {
+        // ids / listings
+        &&& s1.network.wf() && s1.sv_ids_ok()
+        // formations
+        &&& s1.ap_formations_exact() && s1.ap_unserved_covers()
+        &&& (self.ap_grown_small(p, s1) ==> s1.ap_formations_small() && s1.sv_formations_ok())
+        // usage
+        &&& usage_exact(s1.depot_usage@, &s1.network, s1.vehicles@, s1.tours@)
+        // transitions
+        &&& s1.transitions_ok()
+        // the bundle, under the hypotheses on the result: magnitudes (grown formations, costs) and the non-inductive
+        // conjunct ap_unserved_room
+        &&& (self.ap_grown_small(p, s1) && s1.ap_unserved_room() && s1.costs <= sched_cost_bound() ==> s1.ap_ok())
+        // the receiving vehicle, under A-len for its new tour
+        &&& (tour_len_ok(s1.tours@[v].nodes@) ==> s1.ap_vehicle_ok(v))
+    }
+}
+
+// ---- sums over node lists (nsum: env/sums.vs) ---------------------------------------------------------------------
+/// the weight function of the unserved passengers                                   [text of env/sched_ctor_shim.vs, un_fn]
+pub open spec fn apcl_un_fn(net: &Network, tf: Formations, c: int) -> spec_fn(NodeIdx) -> int {
+    |n: NodeIdx| unserved_at(net, n, tf[n].formation@, c)
+}
+/// g inside the list q, 0 elsewhere / g outside q, 0 inside
+pub open spec fn apcl_inside(q: Seq<NodeIdx>, g: spec_fn(NodeIdx) -> int) -> spec_fn(NodeIdx) -> int {
+    |n: NodeIdx| if q.contains(n) { g(n) } else { 0 }
+}
+pub open spec fn apcl_outside(q: Seq<NodeIdx>, g: spec_fn(NodeIdx) -> int) -> spec_fn(NodeIdx) -> int {
+    |n: NodeIdx| if q.contains(n) { 0 } else { g(n) }
+}
+/// [text of env/sched_ctor_shim.vs]
+pub proof fn apcl_lemma_nsum_drop_last(a: Seq<NodeIdx>, g: spec_fn(NodeIdx) -> int)
+    requires a.len() > 0,
+    ensures nsum(a, g) == nsum(a.drop_last(), g) + g(a.last()),
+{
+    assert(a.map_values(g).drop_last() =~= a.drop_last().map_values(g));
+}
+/// [text of env/sched_ctor_shim.vs]
+pub proof fn apcl_lemma_nsum_remove(s: Seq<NodeIdx>, g: spec_fn(NodeIdx) -> int, p: int)
+    requires 0 <= p < s.len(),
+    ensures nsum(s, g) == nsum(s.remove(p), g) + g(s[p]),
+{
+    let a = s.subrange(0, p);
+    let b = s.subrange(p + 1, s.len() as int);
+    assert(s =~= a + seq![s[p]] + b);
+    assert(s.remove(p) =~= a + b);
+    lemma_nsum_append(a + seq![s[p]], b, g);
+    lemma_nsum_append(a, seq![s[p]], g);
+    lemma_nsum_append(a, b, g);
+    assert(seq![s[p]].map_values(g) =~= seq![g(s[p])]);
+    lemma_isum_one(g(s[p]));
+}
+pub proof fn apcl_lemma_nsum_empty(s: Seq<NodeIdx>, g: spec_fn(NodeIdx) -> int)
+    requires s.len() == 0,
+    ensures nsum(s, g) == 0,
+{
+    assert(s.map_values(g) =~= Seq::<int>::empty());
+}
+/// the sum only depends on the weights of the listed nodes
+pub proof fn apcl_lemma_nsum_ext(m: Seq<NodeIdx>, g: spec_fn(NodeIdx) -> int, h: spec_fn(NodeIdx) -> int)
+    requires forall|i: int| 0 <= i < m.len() ==> g(#[trigger] m[i]) == h(m[i]),
+    ensures nsum(m, g) == nsum(m, h),
+{
+    assert(m.map_values(g) =~= m.map_values(h));
+}
+/// the sum is additive in the weight
+pub proof fn apcl_lemma_nsum_add(m: Seq<NodeIdx>, g: spec_fn(NodeIdx) -> int, a: spec_fn(NodeIdx) -> int, b: spec_fn(NodeIdx) -> int)
+    requires forall|i: int| 0 <= i < m.len() ==> g(#[trigger] m[i]) == a(m[i]) + b(m[i]),
+    ensures nsum(m, g) == nsum(m, a) + nsum(m, b),
+    decreases m.len(),
+{
+    if m.len() == 0 {
+        apcl_lemma_nsum_empty(m, g); apcl_lemma_nsum_empty(m, a); apcl_lemma_nsum_empty(m, b);
+    } else {
+        let t = m.drop_last();
+        assert forall|i: int| 0 <= i < t.len() implies g(#[trigger] t[i]) == a(t[i]) + b(t[i]) by { assert(t[i] == m[i]); }
+        apcl_lemma_nsum_add(t, g, a, b);
+        apcl_lemma_nsum_drop_last(m, g); apcl_lemma_nsum_drop_last(m, a); apcl_lemma_nsum_drop_last(m, b);
+        assert(m.last() == m[m.len() - 1]);
+    }
+}
+pub proof fn apcl_lemma_remove_contains(a: Seq<NodeIdx>, p: int, y: NodeIdx)
+    requires 0 <= p < a.len(), a.contains(y), y != a[p],
+    ensures a.remove(p).contains(y),
+{
+    let i = choose|i: int| 0 <= i < a.len() && a[i] == y;
+    if i < p { assert(a.remove(p)[i] == y); } else { assert(a.remove(p)[i - 1] == y); }
+}
+/// a list s in which no node of non-zero (non-negative) weight occurs twice and whose nodes of non-zero weight all occur
+/// in the list a weighs at most as much as a
+pub proof fn apcl_lemma_nsum_sub(s: Seq<NodeIdx>, a: Seq<NodeIdx>, g: spec_fn(NodeIdx) -> int)
+    requires
+        forall|n: NodeIdx| 0 <= #[trigger] g(n),
+        forall|i: int, j: int| 0 <= i < s.len() && 0 <= j < s.len() && i != j && #[trigger] s[i] == #[trigger] s[j] ==> g(s[i]) == 0,
+        forall|i: int| 0 <= i < s.len() && g(#[trigger] s[i]) != 0 ==> a.contains(s[i]),
+    ensures nsum(s, g) <= nsum(a, g),
+    decreases s.len(),
+{
+    if s.len() == 0 {
+        apcl_lemma_nsum_empty(s, g);
+        assert forall|i: int| 0 <= i < a.len() implies 0 <= #[trigger] g(a[i]) <= g(a[i]) + 0 by {}
+        lemma_isum_bounds_lo(a.map_values(g));
+    } else {
+        let t = s.drop_last();
+        let x = s.last();
+        let n = s.len() as int;
+        apcl_lemma_nsum_drop_last(s, g);
+        assert forall|i: int, j: int| 0 <= i < t.len() && 0 <= j < t.len() && i != j && #[trigger] t[i] == #[trigger] t[j] implies g(t[i]) == 0 by {
+            assert(s[i] == s[j]);
+        }
+        if g(x) == 0 {
+            assert forall|i: int| 0 <= i < t.len() && g(#[trigger] t[i]) != 0 implies a.contains(t[i]) by { assert(t[i] == s[i]); }
+            apcl_lemma_nsum_sub(t, a, g);
+        } else {
+            assert(x == s[n - 1]);
+            assert(a.contains(s[n - 1]));
+            let p = choose|p: int| 0 <= p < a.len() && a[p] == x;
+            let a1 = a.remove(p);
+            apcl_lemma_nsum_remove(a, g, p);
+            assert forall|i: int| 0 <= i < t.len() && g(#[trigger] t[i]) != 0 implies a1.contains(t[i]) by {
+                assert(t[i] == s[i]);
+                if s[i] == s[n - 1] { assert(g(s[i]) == 0); }
+                assert(a.contains(s[i]));
+                apcl_lemma_remove_contains(a, p, t[i]);
+            }
+            apcl_lemma_nsum_sub(t, a1, g);
+        }
+    }
+}
+/// the nodes of s that do not occur in q, in order
+pub open spec fn apcl_rest(s: Seq<NodeIdx>, q: Seq<NodeIdx>) -> Seq<NodeIdx>
+    decreases s.len(),
+{
+    if s.len() == 0 { Seq::empty() }
+    else if q.contains(s.last()) { apcl_rest(s.drop_last(), q) }
+    else { apcl_rest(s.drop_last(), q).push(s.last()) }
+}
+pub proof fn apcl_lemma_rest(net: &Network, s: Seq<NodeIdx>, q: Seq<NodeIdx>, g: spec_fn(NodeIdx) -> int)
+    requires acts_distinct(net, s), all_in_net(net, s),
+    ensures
+        forall|x: NodeIdx| #[trigger] apcl_rest(s, q).contains(x) ==> s.contains(x) && !q.contains(x),
+        acts_distinct(net, apcl_rest(s, q)), all_in_net(net, apcl_rest(s, q)),
+        nsum(s, apcl_outside(q, g)) == nsum(apcl_rest(s, q), g),
+    decreases s.len(),
+{
+    let go = apcl_outside(q, g);
+    let r = apcl_rest(s, q);
+    if s.len() == 0 {
+        apcl_lemma_nsum_empty(s, go);
+        apcl_lemma_nsum_empty(r, g);
+    } else {
+        let t = s.drop_last();
+        let x = s.last();
+        let n = s.len() as int;
+        let rt = apcl_rest(t, q);
+        assert(acts_distinct(net, t)) by {
+            assert forall|i: int, j: int| 0 <= i < t.len() && 0 <= j < t.len() && i != j && #[trigger] t[i] == #[trigger] t[j]
+                implies net.sp_node(t[i]).sp_is_depot() by { assert(s[i] == s[j]); }
+        }
+        assert(all_in_net(net, t)) by {
+            assert forall|i: int| 0 <= i < t.len() implies #[trigger] net.has(t[i]) by { assert(net.has(s[i])); }
+        }
+        apcl_lemma_rest(net, t, q, g);
+        apcl_lemma_nsum_drop_last(s, go);
+        assert forall|y: NodeIdx| t.contains(y) implies s.contains(y) by {
+            let i = choose|i: int| 0 <= i < t.len() && t[i] == y;
+            assert(s[i] == y);
+        }
+        assert(s[n - 1] == x);
+        if q.contains(x) {
+            assert(r == rt);
+            assert forall|y: NodeIdx| #[trigger] r.contains(y) implies s.contains(y) && !q.contains(y) by { assert(t.contains(y)); }
+        } else {
+            assert(r == rt.push(x));
+            assert(r.drop_last() =~= rt);
+            apcl_lemma_nsum_drop_last(r, g);
+            assert forall|y: NodeIdx| #[trigger] r.contains(y) implies s.contains(y) && !q.contains(y) by {
+                let i = choose|i: int| 0 <= i < r.len() && r[i] == y;
+                if i < rt.len() { assert(rt[i] == y); assert(rt.contains(y)); assert(t.contains(y)); }
+            }
+            assert(acts_distinct(net, r)) by {
+                assert forall|i: int, j: int| 0 <= i < r.len() && 0 <= j < r.len() && i != j && #[trigger] r[i] == #[trigger] r[j]
+                    implies net.sp_node(r[i]).sp_is_depot() by {
+                    if i < rt.len() && j < rt.len() {
+                        assert(rt[i] == rt[j]);
+                    } else {
+                        // one of them is x, the other one a node of t
+                        let k = if i < rt.len() { i } else { j };
+                        assert(rt[k] == x);
+                        assert(rt.contains(x));
+                        assert(t.contains(x));
+                        let m = choose|m: int| 0 <= m < t.len() && t[m] == x;
+                        assert(s[m] == s[n - 1]);
+                    }
+                }
+            }
+            assert(all_in_net(net, r)) by {
+                assert forall|i: int| 0 <= i < r.len() implies #[trigger] net.has(r[i]) by {
+                    if i < rt.len() { assert(net.has(rt[i])); } else { assert(net.has(s[n - 1])); }
+                }
+            }
+        }
+    }
+}
+/// two lists without a repeated activity that share no node
+pub proof fn apcl_lemma_acts_concat(net: &Network, a: Seq<NodeIdx>, b: Seq<NodeIdx>)
+    requires
+        acts_distinct(net, a), acts_distinct(net, b), all_in_net(net, a), all_in_net(net, b),
+        forall|x: NodeIdx| #[trigger] b.contains(x) ==> !a.contains(x),
+    ensures acts_distinct(net, a + b), all_in_net(net, a + b),
+{
+    let w = a + b;
+    let na = a.len() as int;
+    assert forall|i: int, j: int| 0 <= i < w.len() && 0 <= j < w.len() && i != j && #[trigger] w[i] == #[trigger] w[j]
+        implies net.sp_node(w[i]).sp_is_depot() by {
+        if i < na && j < na { assert(a[i] == a[j]); }
+        else if i >= na && j >= na { assert(b[i - na] == b[j - na]); }
+        else if i < na { assert(b.contains(b[j - na])); assert(a.contains(a[i])); }
+        else { assert(b.contains(b[i - na])); assert(a.contains(a[j])); }
+    }
+    assert forall|i: int| 0 <= i < w.len() implies #[trigger] net.has(w[i]) by {
+        if i < na { assert(net.has(a[i])); } else { assert(net.has(b[i - na])); }
+    }
+}
+/// Schedule::un_sum over a table's own formations (`after == false`) is the nsum of the table's weight function
+pub proof fn apcl_lemma_un_nsum(sch: &Schedule, tf: Formations, m: Seq<NodeIdx>, k: int, c: int)
+    requires 0 <= k <= m.len(),
+    ensures sch.un_sum(tf, None, None, m, k, false, c) == nsum(m.take(k), apcl_un_fn(&sch.network, tf, c)),
+    decreases k,
+{
+    let g = apcl_un_fn(&sch.network, tf, c);
+    if k > 0 {
+        apcl_lemma_un_nsum(sch, tf, m, k - 1, c);
+        apcl_lemma_nsum_drop_last(m.take(k), g);
+        assert(m.take(k).drop_last() =~= m.take(k - 1));
+        assert(m.take(k).last() == m[k - 1]);
+    } else {
+        apcl_lemma_nsum_empty(m.take(0), g);
+    }
+}
+/// Schedule::un_sum over the formations AFTER the replacement is the nsum of the weight function of the table tf2 that holds
+/// these formations
+pub proof fn apcl_lemma_un_after(sch: &Schedule, tf0: Formations, tf2: Formations, pr: Option<VehicleIdx>, rv: Option<Vehicle>, m: Seq<NodeIdx>, k: int, c: int)
+    requires
+        0 <= k <= m.len(),
+        forall|j: int| 0 <= j < k && !sch.network.sp_node(#[trigger] m[j]).sp_is_depot()
+            ==> tf2[m[j]].formation@ == sch.repl_seq(tf0[m[j]].formation@, pr, rv),
+    ensures sch.un_sum(tf0, pr, rv, m, k, true, c) == nsum(m.take(k), apcl_un_fn(&sch.network, tf2, c)),
+    decreases k,
+{
+    let g = apcl_un_fn(&sch.network, tf2, c);
+    if k > 0 {
+        apcl_lemma_un_after(sch, tf0, tf2, pr, rv, m, k - 1, c);
+        apcl_lemma_nsum_drop_last(m.take(k), g);
+        assert(m.take(k).drop_last() =~= m.take(k - 1));
+        assert(m.take(k).last() == m[k - 1]);
+        if !sch.network.sp_node(m[k - 1]).sp_is_depot() {
+            assert(tf2[m[k - 1]].formation@ == sch.repl_seq(tf0[m[k - 1]].formation@, pr, rv));
+        }
+    } else {
+        apcl_lemma_nsum_empty(m.take(0), g);
+    }
+}
+
+// ---- ids / listings -------------------------------------------------------------------------------------------------
+pub proof fn lemma_apcl_ids(s: &Schedule, v: VehicleIdx, p: Seq<NodeIdx>, s1: &Schedule)
+    requires s.network.wf(), s.sv_ids_ok(), s.vehicles@.contains_key(v), s.ap_tour_after(v, p, s1), s.ap_rest_untouched(s1),
+    ensures s1.network.wf(), s1.sv_ids_ok(),
+{
+    assert forall|u: VehicleIdx| #[trigger] s1.vehicles@.contains_key(u) <==> s1.tours@.contains_key(u) by {
+        assert(s.vehicles@.contains_key(u) <==> s.tours@.contains_key(u));
+    }
+    assert forall|vt: VehicleTypeIdx| #[trigger] s1.vehicle_ids_grouped_and_sorted@.contains_key(vt) implies sorted_cmp(s1.listing(vt)) by {
+        assert(s.vehicle_ids_grouped_and_sorted@.contains_key(vt));
+        assert(s1.listing(vt) == s.listing(vt));
+    }
+}
+
+// ---- formations -----------------------------------------------------------------------------------------------------
+/// sv_formations_ok is the conjunction of its non-magnitude and its magnitude clauses
+pub proof fn lemma_apcl_formations_split(s: &Schedule)
+    ensures s.sv_formations_ok() <==> s.ap_formations_exact() && s.ap_formations_small(),
+{
+}
+/// path + displaced block: no activity twice, nodes of the network
+pub proof fn lemma_apcl_pd(s: &Schedule, v: VehicleIdx, p: Seq<NodeIdx>)
+    requires
+        s.network.wf(), s.ap_vehicle_ok(v), path_shape(&s.network, p), s.ap_path_fresh(v, p),
+        0 <= s.ap_s(v, p) <= s.ap_e(v, p) <= s.tours@[v].len(),
+    ensures
+        acts_distinct(&s.network, p + s.ap_displaced(v, p)), all_in_net(&s.network, p + s.ap_displaced(v, p)),
+        forall|n: NodeIdx| #[trigger] (p + s.ap_displaced(v, p)).contains(n) <==> p.contains(n) || s.ap_displaced(v, p).contains(n),
+{
+    let net = &s.network;
+    let d = s.ap_displaced(v, p);
+    let pd = p + d;
+    let np = p.len() as int;
+    lemma_ap_frame(s, v, p, s.train_formations@);
+    lemma_path_distinct(net, p);
+    assert(acts_distinct(net, pd)) by {
+        assert forall|i: int, j: int| 0 <= i < pd.len() && 0 <= j < pd.len() && i != j && #[trigger] pd[i] == #[trigger] pd[j]
+            implies net.sp_node(pd[i]).sp_is_depot() by {
+            if i < np && j < np { assert(p[i] != p[j]); }
+            if i >= np && j >= np { assert(d[i - np] != d[j - np]); }
+            if i < np && j >= np { assert(p.contains(p[i])); assert(!moved_nd(net, p, d[j - np])); }
+            if j < np && i >= np { assert(p.contains(p[j])); assert(!moved_nd(net, p, d[i - np])); }
+        }
+    }
+    assert(all_in_net(net, pd)) by {
+        assert forall|i: int| 0 <= i < pd.len() implies #[trigger] net.has(pd[i]) by {
+            if i < np { assert(net.has(p[i])); } else { assert(net.has(d[i - np])); }
+        }
+    }
+    assert forall|n: NodeIdx| #[trigger] pd.contains(n) <==> p.contains(n) || d.contains(n) by {
+        if pd.contains(n) {
+            let i = choose|i: int| 0 <= i < pd.len() && pd[i] == n;
+            if i < np { assert(p[i] == n); } else { assert(d[i - np] == n); }
+        }
+        if p.contains(n) { let i = choose|i: int| 0 <= i < p.len() && p[i] == n; assert(pd[i] == n); }
+        if d.contains(n) { let i = choose|i: int| 0 <= i < d.len() && d[i] == n; assert(pd[np + i] == n); }
+    }
+}
+/// the new pair is the old one minus the old contribution of path + displaced block plus their new contribution
+pub proof fn lemma_apcl_pair(s: &Schedule, v: VehicleIdx, p: Seq<NodeIdx>, s1: &Schedule, c: int)
+    requires
+        s.sv_ids_ok(), s.vehicles@.contains_key(v), c == 0 || c == 1,
+        s.ap_joins(v, p, s1.train_formations@), s.ap_leaves(v, p, s1.train_formations@),
+        s.ap_unserved_after(v, p, s1.unserved_passengers),
+    ensures
+        s1.unserved_c(c) == s.unserved_c(c)
+            - nsum(p + s.ap_displaced(v, p), apcl_un_fn(&s.network, s.train_formations@, c))
+            + nsum(p + s.ap_displaced(v, p), apcl_un_fn(&s.network, s1.train_formations@, c)),
+{
+    let net = &s.network;
+    let tf0 = s.train_formations@;
+    let tf2 = s1.train_formations@;
+    let vh = s.vehicles@[v];
+    let rv = Some(vh);
+    let d = s.ap_displaced(v, p);
+    let np = p.len() as int;
+    let nd = d.len() as int;
+    let g0 = apcl_un_fn(net, tf0, c);
+    let g2 = apcl_un_fn(net, tf2, c);
+    if s.dummy_tours@.contains_key(v) { assert(v is Dummy); }
+    assert(s.grows(None, rv));
+    assert(s.shrinks(Some(v), None::<Vehicle>) && !s.grows(Some(v), None::<Vehicle>) && !s.replaces(Some(v), None::<Vehicle>));
+    // the path
+    lemma_un_old(s, tf0, None, rv, p, np, c);
+    apcl_lemma_un_nsum(s, tf0, p, np, c);
+    assert(p.take(np) =~= p);
+    assert forall|j: int| 0 <= j < np && !net.sp_node(#[trigger] p[j]).sp_is_depot()
+        implies tf2[p[j]].formation@ == s.repl_seq(tf0[p[j]].formation@, None, rv) by {
+        assert(p.contains(p[j]));
+        assert(moved_nd(net, p, p[j]));
+    }
+    apcl_lemma_un_after(s, tf0, tf2, None, rv, p, np, c);
+    // the displaced block
+    lemma_un_old(s, tf0, Some(v), None, d, nd, c);
+    apcl_lemma_un_nsum(s, tf0, d, nd, c);
+    assert(d.take(nd) =~= d);
+    assert forall|j: int| 0 <= j < nd && !net.sp_node(#[trigger] d[j]).sp_is_depot()
+        implies tf2[d[j]].formation@ == s.repl_seq(tf0[d[j]].formation@, Some(v), None) by {
+        assert(d.contains(d[j]));
+        assert(moved_nd(net, d, d[j]));
+    }
+    apcl_lemma_un_after(s, tf0, tf2, Some(v), None, d, nd, c);
+    lemma_nsum_append(p, d, g0);
+    lemma_nsum_append(p, d, g2);
+}
+/// C09: the new pair covers the contribution (w.r.t. the NEW table) of any list of nodes without a repeated activity:
+/// ap_unserved_covers holds again (component c)
+pub proof fn lemma_apcl_covers(s: &Schedule, v: VehicleIdx, p: Seq<NodeIdx>, s1: &Schedule, c: int)
+    requires
+        s.network.wf(), s.sv_ids_ok(), s.ap_unserved_covers(), s.ap_vehicle_ok(v), path_shape(&s.network, p), s.ap_path_fresh(v, p),
+        0 <= s.ap_s(v, p) <= s.ap_e(v, p) <= s.tours@[v].len(),
+        s1.network == s.network,
+        s.ap_joins(v, p, s1.train_formations@), s.ap_leaves(v, p, s1.train_formations@), s.ap_elsewhere(v, p, s1.train_formations@),
+        s.ap_unserved_after(v, p, s1.unserved_passengers),
+        c == 0 || c == 1,
+    ensures
+        forall|m: Seq<NodeIdx>| #![trigger s1.un_old(m, m.len() as int, c)] acts_distinct(&s1.network, m) && all_in_net(&s1.network, m)
+            ==> s1.un_old(m, m.len() as int, c) <= s1.unserved_c(c),
+{
+    let net = &s.network;
+    let tf0 = s.train_formations@;
+    let tf2 = s1.train_formations@;
+    let d = s.ap_displaced(v, p);
+    let pd = p + d;
+    let g0 = apcl_un_fn(net, tf0, c);
+    let g2 = apcl_un_fn(net, tf2, c);
+    lemma_apcl_pair(s, v, p, s1, c);
+    lemma_apcl_pd(s, v, p);
+    assert forall|m: Seq<NodeIdx>| #![trigger s1.un_old(m, m.len() as int, c)] acts_distinct(&s1.network, m) && all_in_net(&s1.network, m)
+        implies s1.un_old(m, m.len() as int, c) <= s1.unserved_c(c) by {
+        apcl_lemma_un_nsum(s1, tf2, m, m.len() as int, c);
+        assert(m.take(m.len() as int) =~= m);
+        assert(s1.un_old(m, m.len() as int, c) == nsum(m, g2));
+        let gi = apcl_inside(pd, g2);
+        let go = apcl_outside(pd, g2);
+        apcl_lemma_nsum_add(m, g2, gi, go);
+        // the nodes of m inside path + displaced block weigh at most as much as path + displaced block
+        assert forall|n: NodeIdx| 0 <= #[trigger] gi(n) by {}
+        assert forall|i: int, j: int| 0 <= i < m.len() && 0 <= j < m.len() && i != j && #[trigger] m[i] == #[trigger] m[j] implies gi(m[i]) == 0 by {
+            assert(net.sp_node(m[i]).sp_is_depot());
+        }
+        apcl_lemma_nsum_sub(m, pd, gi);
+        assert forall|i: int| 0 <= i < pd.len() implies gi(#[trigger] pd[i]) == g2(pd[i]) by { assert(pd.contains(pd[i])); }
+        apcl_lemma_nsum_ext(pd, gi, g2);
+        // the nodes of m outside kept their formation: with path + displaced block they are covered by the OLD pair
+        let rest = apcl_rest(m, pd);
+        apcl_lemma_rest(net, m, pd, g2);
+        assert forall|i: int| 0 <= i < rest.len() implies g2(#[trigger] rest[i]) == g0(rest[i]) by {
+            let n = rest[i];
+            assert(rest.contains(n));
+            assert(!pd.contains(n));
+            assert(!moved_nd(net, p, n) && !moved_nd(net, d, n));
+            assert(tf2[n] == tf0[n]);
+        }
+        apcl_lemma_nsum_ext(rest, g2, g0);
+        let w = pd + rest;
+        apcl_lemma_acts_concat(net, pd, rest);
+        assert(s.un_old(w, w.len() as int, c) <= s.unserved_c(c));
+        apcl_lemma_un_nsum(s, tf0, w, w.len() as int, c);
+        assert(w.take(w.len() as int) =~= w);
+        lemma_nsum_append(pd, rest, g0);
+    }
+}
+/// the structure of the formation table and, for the formations that did not grow, the magnitudes
+pub proof fn lemma_apcl_formations(s: &Schedule, v: VehicleIdx, p: Seq<NodeIdx>, s1: &Schedule)
+    requires
+        s.sv_formations_ok(), s1.network == s.network,
+        s.ap_leaves(v, p, s1.train_formations@), s.ap_elsewhere(v, p, s1.train_formations@),
+    ensures
+        forall|n: NodeIdx| s1.network.has(n) && s1.network.sp_node(n).sp_is_activity() ==> #[trigger] s1.train_formations@.contains_key(n),
+        forall|n: NodeIdx| s1.network.has(n) && #[trigger] s1.network.sp_node(n) is Service ==> s1.network.is_trip(n),
+        s.ap_grown_small(p, s1) ==> s1.ap_formations_small(),
+{
+    let net = &s.network;
+    let tf0 = s.train_formations@;
+    let tf2 = s1.train_formations@;
+    let d = s.ap_displaced(v, p);
+    assert forall|n: NodeIdx| s1.network.has(n) && s1.network.sp_node(n).sp_is_activity() implies #[trigger] tf2.contains_key(n) by {
+        assert(tf0.contains_key(n));
+        assert(tf0.dom().contains(n));
+    }
+    if s.ap_grown_small(p, s1) {
+        assert forall|n: NodeIdx| #[trigger] tf2.contains_key(n) implies tf2[n].formation@.len() <= max_vehicles() by {
+            assert(tf2.dom().contains(n));
+            assert(tf0.contains_key(n));
+            if moved_nd(net, p, n) {
+            } else if moved_nd(net, d, n) {
+                let f = tf0[n].formation@;
+                assert(has_vehicle(f, v));
+                lemma_first_pos(f, v);
+            } else {
+                assert(tf2[n] == tf0[n]);
+            }
+        }
+        assert forall|n: NodeIdx, vt: VehicleTypeIdx| #![trigger tf2[n], s1.vtypes()[vt]] tf2.contains_key(n) && s1.vtypes().contains_key(vt)
+            implies fcap(tf2[n].formation@) + s1.vtypes()[vt].capacity <= u32::MAX && fseats(tf2[n].formation@) + s1.vtypes()[vt].seats <= u32::MAX by {
+            assert(tf2.dom().contains(n));
+            assert(tf0.contains_key(n));
+            assert(s1.vtypes()[vt] == s.vtypes()[vt]);
+            assert(fcap(tf0[n].formation@) + s.vtypes()[vt].capacity <= u32::MAX && fseats(tf0[n].formation@) + s.vtypes()[vt].seats <= u32::MAX);
+            if moved_nd(net, p, n) {
+            } else if moved_nd(net, d, n) {
+                let f = tf0[n].formation@;
+                assert(has_vehicle(f, v));
+                lemma_first_pos(f, v);
+                lemma_fcap_remove(f, first_pos(f, v));
+            } else {
+                assert(tf2[n] == tf0[n]);
+            }
+        }
+    }
+}
+
+// ---- rotation cycles ------------------------------------------------------------------------------------------------
+/// the vehicles in the first k cycles                                                  [text of env/sched_ctor_shim.vs]
+pub open spec fn apcl_cyc_elems(t: TView, k: int) -> Set<VehicleIdx>
+    decreases k,
+{
+    if k <= 0 { Set::empty() } else { apcl_cyc_elems(t, k - 1).union(t.cyc(k - 1).to_set()) }
+}
+pub proof fn apcl_lemma_cyc_elems_member(t: TView, k: int, v: VehicleIdx)
+    requires 0 <= k <= t.n(),
+    ensures apcl_cyc_elems(t, k).contains(v) <==> exists|i: int| 0 <= i < k && (#[trigger] t.cyc(i)).contains(v),
+    decreases k,
+{
+    if k > 0 {
+        apcl_lemma_cyc_elems_member(t, k - 1, v);
+        if apcl_cyc_elems(t, k).contains(v) {
+            if t.cyc(k - 1).contains(v) { assert(0 <= k - 1 < k && t.cyc(k - 1).contains(v)); }
+            else {
+                let i = choose|i: int| 0 <= i < k - 1 && (#[trigger] t.cyc(i)).contains(v);
+                assert(0 <= i < k && t.cyc(i).contains(v));
+            }
+        }
+        if exists|i: int| 0 <= i < k && (#[trigger] t.cyc(i)).contains(v) {
+            let i = choose|i: int| 0 <= i < k && (#[trigger] t.cyc(i)).contains(v);
+            if i < k - 1 { assert(0 <= i < k - 1 && t.cyc(i).contains(v)); }
+        }
+    }
+}
+pub proof fn apcl_lemma_cyc_elems_len(t: TView, k: int)
+    requires t.wf_cycles(), 0 <= k <= t.n(),
+    ensures apcl_cyc_elems(t, k).len() == sum_seq(lens_of(t.cycles).take(k)),
+    decreases k,
+{
+    let l = lens_of(t.cycles);
+    if k > 0 {
+        apcl_lemma_cyc_elems_len(t, k - 1);
+        let a = apcl_cyc_elems(t, k - 1);
+        let b = t.cyc(k - 1).to_set();
+        assert(a.disjoint(b)) by {
+            assert forall|v: VehicleIdx| !(a.contains(v) && b.contains(v)) by {
+                if a.contains(v) && b.contains(v) {
+                    apcl_lemma_cyc_elems_member(t, k - 1, v);
+                    let i = choose|i: int| 0 <= i < k - 1 && (#[trigger] t.cyc(i)).contains(v);
+                    let x = choose|x: int| 0 <= x < t.cyc(i).len() && t.cyc(i)[x] == v;
+                    let ck = t.cyc(k - 1);
+                    let y = choose|y: int| 0 <= y < ck.len() && ck[y] == v;
+                    assert(t.cyc(i)[x] != t.cyc(k - 1)[y]);
+                }
+            }
+        }
+        vstd::set_lib::lemma_set_disjoint_lens(a, b);
+        t.cyc(k - 1).unique_seq_to_set();
+        assert(l.take(k).drop_last() =~= l.take(k - 1));
+        assert(l.take(k).last() == t.cyc(k - 1).len());
+    } else {
+        assert(l.take(0) =~= Seq::<int>::empty());
+    }
+}
+/// C15: a consistent transition holds as many vehicles as its lookup has keys          [text of env/sched_ctor_shim.vs]
+pub proof fn apcl_lemma_total_len_is_lookup(t: TView)
+    requires t.wf_cycles(), t.wf_lookup(),
+    ensures t.total_len() == t.lookup.dom().len(),
+{
+    let l = lens_of(t.cycles);
+    apcl_lemma_cyc_elems_len(t, t.n());
+    assert(l.take(t.n()) =~= l);
+    assert(apcl_cyc_elems(t, t.n()) =~= t.lookup.dom()) by {
+        assert forall|v: VehicleIdx| apcl_cyc_elems(t, t.n()).contains(v) <==> t.lookup.dom().contains(v) by {
+            apcl_lemma_cyc_elems_member(t, t.n(), v);
+            if apcl_cyc_elems(t, t.n()).contains(v) {
+                let i = choose|i: int| 0 <= i < t.n() && (#[trigger] t.cyc(i)).contains(v);
+                let x = choose|x: int| 0 <= x < t.cyc(i).len() && t.cyc(i)[x] == v;
+                assert(t.lookup.contains_key(t.cyc(i)[x]));
+            }
+            if t.lookup.contains_key(v) {
+                assert(0 <= t.cycle_of(v) < t.n() && t.cyc(t.cycle_of(v)).contains(v));
+            }
+        }
+    }
+}
+pub proof fn apcl_lemma_len_sum_same(t1: Map<VehicleTypeIdx, Transition>, t2: Map<VehicleTypeIdx, Transition>, vts: Seq<VehicleTypeIdx>)
+    requires forall|i: int| 0 <= i < vts.len() ==> (#[trigger] t1[vts[i]]).total_len() == t2[vts[i]].total_len(),
+    ensures len_sum(t1, vts) == len_sum(t2, vts),
+    decreases vts.len(),
+{
+    if vts.len() > 0 {
+        let d = vts.drop_last();
+        assert forall|i: int| 0 <= i < d.len() implies (#[trigger] t1[d[i]]).total_len() == t2[d[i]].total_len() by { assert(d[i] == vts[i]); }
+        apcl_lemma_len_sum_same(t1, t2, d);
+        assert(vts.last() == vts[vts.len() - 1]);
+    }
+}
+/// C15 / C10 / C09: transitions_ok holds again -- including its magnitude clause: the cycles of every type hold exactly
+/// the vehicles of the type, before and after, and the vehicles are untouched
+pub proof fn lemma_apcl_transitions(s: &Schedule, vt: VehicleTypeIdx, s1: &Schedule)
+    requires s.transitions_ok(), s.ap_rest_untouched(s1), s.transitions_follow(vt, s1),
+    ensures s1.transitions_ok(),
+{
+    let trs0 = s.next_period_transitions@;
+    let trs1 = s1.next_period_transitions@;
+    let vts = sched_types(s);
+    assert(sched_types(s1) == vts);
+    assert forall|t: VehicleTypeIdx| #[trigger] trs1.contains_key(t) <==> vts.contains(t) by {
+        assert(trs0.contains_key(t) <==> vts.contains(t));
+    }
+    assert forall|t: VehicleTypeIdx, u: VehicleIdx| #![trigger trs1[t].has_vehicle(u)] trs1.contains_key(t)
+        implies (trs1[t].has_vehicle(u) <==> s1.vehicles@.contains_key(u) && s1.type_of(u) == t) by {
+        assert(vtype(s1.vehicles@[u]) == s1.type_of(u));
+    }
+    assert forall|i: int| 0 <= i < vts.len() implies (#[trigger] trs1[vts[i]]).total_len() == trs0[vts[i]].total_len() by {
+        let t = vts[i];
+        assert(vts.contains(t));
+        assert(trs0.contains_key(t) && trs1.contains_key(t));
+        assert(trs0[t].wf(&s.network, s.tours@) && trs1[t].wf(&s.network, s1.tours@));
+        apcl_lemma_total_len_is_lookup(trs0[t]@);
+        apcl_lemma_total_len_is_lookup(trs1[t]@);
+        assert(trs0[t]@.lookup.dom() =~= trs1[t]@.lookup.dom()) by {
+            assert forall|u: VehicleIdx| trs0[t]@.lookup.dom().contains(u) <==> trs1[t]@.lookup.dom().contains(u) by {
+                assert(trs0[t].has_vehicle(u) <==> s.vehicles@.contains_key(u) && s.type_of(u) == t);
+                assert(trs1[t].has_vehicle(u) <==> (s1.vehicles@.contains_key(u) && vtype(s1.vehicles@[u]) == t));
+            }
+        }
+    }
+    apcl_lemma_len_sum_same(trs1, trs0, vts);
+}
+
+// ---- the receiving vehicle ------------------------------------------------------------------------------------------
+/// C10 "a vehicle is in the formation of a node exactly if its tour contains the node": the vehicle is listed in the
+/// formation of every activity of its NEW tour (prefix and suffix: as before, untouched; path: it joined)
+pub proof fn lemma_apcl_listed(s: &Schedule, v: VehicleIdx, p: Seq<NodeIdx>, s1: &Schedule)
+    requires
+        s.sv_ids_ok(), s.ap_vehicle_ok(v), s.ap_path_fresh(v, p),
+        s.ap_tour_after(v, p, s1),
+        s.ap_joins(v, p, s1.train_formations@), s.ap_elsewhere(v, p, s1.train_formations@),
+    ensures s1.ap_listed(v),
+{
+    let net = &s.network;
+    let t0 = s.tours@[v];
+    let nt = s1.tours@[v];
+    let a = s.ap_s(v, p);
+    let b = s.ap_e(v, p);
+    let d = s.ap_displaced(v, p);
+    let tf0 = s.train_formations@;
+    let tf2 = s1.train_formations@;
+    let vh = s.vehicles@[v];
+    let n0 = t0.nodes@.len() as int;
+    lemma_ap_block(&t0, a, b);
+    assert forall|i: int| 0 < i < nt.nodes@.len() - 1 implies has_vehicle(tf2[#[trigger] nt.nodes@[i]].formation@, v) by {
+        let x = nt.nodes@[i];
+        lemma_tour_kinds(&nt, i);
+        assert(net.sp_node(x).sp_is_activity());
+        if a <= i < a + p.len() {
+            assert(x == p[i - a]);
+            assert(p.contains(x));
+            assert(moved_nd(net, p, x));
+            let f = tf0[x].formation@;
+            assert(tf2[x].formation@ == f.push(vh));
+            assert(f.push(vh)[f.len() as int].idx == v);
+        } else {
+            // a node of the old tour, outside the displaced block
+            let k = if i < a { i } else { i - a - p.len() + b };
+            assert(x == t0.nodes@[k]);
+            assert(0 <= k < n0 && !(a <= k < b));
+            lemma_tour_kinds(&t0, k);
+            assert(0 < k < n0 - 1);
+            assert(has_vehicle(tf0[t0.nodes@[k]].formation@, v));
+            assert(t0.nodes@.contains(x));
+            if p.contains(x) {
+                let j = choose|j: int| 0 <= j < p.len() && p[j] == x;
+                assert(!t0.nodes@.contains(p[j]));
+            }
+            if d.contains(x) {
+                let j = choose|j: int| 0 <= j < d.len() && d[j] == x;
+                assert(d[j] == t0.nodes@[a + j]);
+                lemma_tour_distinct(&t0, k, a + j);
+            }
+            assert(!moved_nd(net, p, x) && !moved_nd(net, d, x));
+            assert(tf2[x] == tf0[x]);
+        }
+    }
+}
+pub proof fn lemma_apcl_vehicle(s: &Schedule, v: VehicleIdx, p: Seq<NodeIdx>, s1: &Schedule)
+    requires
+        s.sv_ids_ok(), s.ap_vehicle_ok(v), s.ap_path_fresh(v, p),
+        s.ap_tour_after(v, p, s1), s.ap_rest_untouched(s1),
+        s.ap_joins(v, p, s1.train_formations@), s.ap_elsewhere(v, p, s1.train_formations@),
+        s1.costs == s.costs + s1.tours@[v].costs - s.tours@[v].costs,
+    ensures tour_len_ok(s1.tours@[v].nodes@) ==> s1.ap_vehicle_ok(v),
+{
+    lemma_apcl_listed(s, v, p, s1);
+    assert(s1.type_of(v) == s.type_of(v));
+    assert(s1.vtypes() == s.vtypes());
+    assert(sched_types(s1) == sched_types(s));
+    assert(s1.type_known(s1.type_of(v)));
+}
+
+// ---- the closure -----------------------------------------------------------------------------------------------------
+/// CLOSURE: a schedule s1 that relates to the valid schedule s as the contract of add_path_to_vehicle_tour says (ap_effects)
+/// satisfies the invariants again (ap_closed: conjunct by conjunct; the bundle under the hypotheses on the result).
+/// ap_unserved_room is NOT derivable (and not inductive as written): it bounds "pair - Σ_m unserved(formation) + Σ_m
+/// unserved(formation - x)" for the removal of ONE vehicle x from the OLD table; in the result the displaced nodes have lost v
+/// already, and removing another vehicle x there is the removal of TWO vehicles from the old table.  A model of ap_ok that
+/// breaks it: one trip n with demand 10, formation [v (capacity 5), x (capacity 5)], pair.0 = u32::MAX - 5 (ap_unserved_covers:
+/// 0 <= pair; ap_unserved_room: MAX - 5 - 0 + 5 <= MAX); v's tour loses n: pair.0 = MAX - 5 - 0 + 5 = MAX, formation [x]; now
+/// m = [n], x: MAX - 5 + 10 > MAX.  (Spurious for the real code, where the pair IS the sum over all trips -- 0 in the model --;
+/// the bundle only has consequences of that: the inductive form is "pair == Σ over all service trips" + "total demand fits
+/// u32", env/sched_ctor_shim.vs unserved_from_scratch.)
+pub proof fn lemma_apcl_closed(s: &Schedule, v: VehicleIdx, p: Seq<NodeIdx>, s1: &Schedule)
+    requires s.ap_ok(), s.ap_vehicle_ok(v), path_shape(&s.network, p), s.ap_path_fresh(v, p), s.ap_effects(v, p, s1),
+    ensures s.ap_closed(v, p, s1),
+{
+    lemma_apcl_ids(s, v, p, s1);
+    lemma_apcl_formations(s, v, p, s1);
+    lemma_apcl_covers(s, v, p, s1, 0);
+    lemma_apcl_covers(s, v, p, s1, 1);
+    assert(s1.ap_unserved_covers());
+    assert(s1.ap_formations_exact()) by {
+        assert forall|m: Seq<NodeIdx>, c: int| #![trigger s1.un_old(m, m.len() as int, c)] m.no_duplicates() && all_in_net(&s1.network, m) && (c == 0 || c == 1)
+            implies s1.un_old(m, m.len() as int, c) <= s1.unserved_c(c) by {
+            assert(acts_distinct(&s1.network, m));
+        }
+    }
+    lemma_apcl_formations_split(s1);
+    lemma_apcl_transitions(s, s.type_of(v), s1);
+    lemma_apcl_vehicle(s, v, p, s1);
+}
+/// the same for whatever schedule the function returns (the result only exists in the tail expression of the body)
+pub proof fn lemma_apcl_closed_all(s: &Schedule, v: VehicleIdx, p: Seq<NodeIdx>)
+    requires s.ap_ok(), s.ap_vehicle_ok(v), path_shape(&s.network, p), s.ap_path_fresh(v, p),
+    ensures forall|s1: Schedule| #[trigger] s.ap_effects(v, p, &s1) ==> s.ap_closed(v, p, &s1),
+{
+    assert forall|s1: Schedule| #[trigger] s.ap_effects(v, p, &s1) implies s.ap_closed(v, p, &s1) by {
+        lemma_apcl_closed(s, v, p, &s1);
+    }
 }
